@@ -9,6 +9,8 @@ package peering
 //@ type LinkBase
 //@   invariant wired [C13]: self.peering != nil && nonnil(self.conn)
 //@   invariant queues [C13]: self.sendQueueRegl != nil && self.sendQueuePrio != nil && cap(self.sendQueueRegl) == 1000 && cap(self.sendQueuePrio) == 100
+// wiring and queues of a link are set once, by newLinkBase, and never reassigned (checked over the whole module)
+//@   frozen peering, conn, sendQueueRegl, sendQueuePrio by newLinkBase
 
 // ---- link frames (C05) ----------------------------------------------------------------------------
 // A link frame is  length(2) version(1) rate(1) seq(4) ack(4) | link data | MAC(16): at least 28 bytes.
@@ -52,6 +54,7 @@ package peering
 //@   requires b != nil
 //@   callsite frame.Builder.ParseFrame only-unsealed-data [C05]: link.encSession == nil || (link.encSession.lastUnsealed == base(arg1) && link.encSession.lastUnsealedLen == len(arg1) + 28 && off(arg1) == 12)
 //@   ensures frame [C05,C13]: result1 == nil ==> nonnil(result0) && result0.data != nil
+//@   ensures replyable [C13]: result1 == nil ==> result0.builder == b && result0.dblReturnCheck == 0 && usable(result0)
 
 //@ func LinkBase.writeFrame
 //@   requires nonnil(f) && f.data != nil && f.builder != nil && f.dblReturnCheck == 0
@@ -109,6 +112,8 @@ package peering
 //@   requires nonnil(in) && in.data != nil && in.builder != nil && usable(in)
 //@   ensures accepted-only-if [C04,C01]: result1 == nil ==> (old(state.step) == 1 && remoteAddr.verified && r.Address.IP == state.remoteIP && state.session != nil && session == state.session && in.unsealedBy == state.session && r.LinkVersion == 1 && r.Universe == state.peering.instance.Config().Router.Universe && len(r.Challenge) >= 16)
 //@   ensures session-established [C04]: result1 == nil ==> old(state.step) == 1 && state.session != nil && in.unsealedBy == state.session
+//@   ensures response-present [C04]: (result1 == nil ==> nonnil(result0) && result0 == in) && (result1 != nil ==> result0 == nil)
+//@   ensures frame-kept [C13]: in.dblReturnCheck == old(in.dblReturnCheck) && in.builder == old(in.builder) && in.data != nil
 //@   ensures response-echoes-challenge [C04]: result1 == nil ==> resp.Challenge == r.Challenge
 //@   ensures no-self-peering [C04]: result1 == nil ==> state.remoteIP != state.peering.instance.Identity().IP
 //@   ensures step-kept [C04]: state.step == old(state.step)
@@ -123,6 +128,8 @@ package peering
 //@   requires nonnil(in) && in.data != nil && in.builder != nil && usable(in) && state.session != nil
 //@   callsite ConstantTimeCompare#1 this-connections-challenge [C04]: base(arg0) == base(state.challenge) && off(arg0) == off(state.challenge) && len(arg0) == len(state.challenge) && base(arg1) == base(r.Challenge) && len(arg1) == len(r.Challenge)
 //@   ensures accepted-only-if [C04]: result1 == nil ==> (old(state.step) == 2 && in.unsealedBy == state.session && ctcmp_ok_1)
+//@   ensures response-present [C04]: (result1 == nil ==> nonnil(result0) && result0 == in) && (result1 != nil ==> result0 == nil)
+//@   ensures frame-kept [C13]: in.dblReturnCheck == old(in.dblReturnCheck) && in.builder == old(in.builder) && in.data != nil
 //@   ensures secret-holders-check-universe-auth [C04]: result1 == nil && state.peering.instance.Config().Router.UniverseSecret != "" ==> ctcmp_ok_2
 //@   ensures step-kept [C04]: state.step == old(state.step) && (old(state.session) != nil ==> state.session == old(state.session))
 //@   ensures in-usable [C13]: usable(in)
@@ -131,6 +138,7 @@ package peering
 //@   option errbreaks
 //@   requires nonnil(in) && in.data != nil && in.builder != nil && usable(in) && state.session != nil
 //@   ensures accepted-only-if [C04]: result == nil ==> (old(state.step) == 3 && in.unsealedBy == state.session)
+//@   ensures frame-kept [C13]: in.dblReturnCheck == old(in.dblReturnCheck) && in.builder == old(in.builder) && in.data != nil
 //@   ensures step-kept [C04]: state.step == old(state.step) && (old(state.session) != nil ==> state.session == old(state.session))
 //@   ensures in-usable [C13]: usable(in)
 
@@ -141,3 +149,38 @@ package peering
 //@   requires nonnil(in) && in.data != nil && in.builder != nil && usable(in) && (state.step >= 2 ==> state.session != nil)
 //@   ensures step-advances-on-success-only [C04]: (err == nil ==> state.step == old(state.step) + 1 && old(state.step) >= 1 && old(state.step) <= 3) && (err != nil ==> state.step == old(state.step))
 //@   ensures session-set [C04]: err == nil ==> state.session != nil
+//@   ensures frame-kept [C13]: in.dblReturnCheck == old(in.dblReturnCheck) && in.builder == old(in.builder) && in.data != nil
+//@   ensures done-only-after-ack [C04]: err == nil && !nonnil(response) ==> old(state.step) == 3
+//@   ensures response-is-the-input-frame [C13]: (nonnil(response) ==> response == in && usable(in)) && (nonnil(response) || response == nil)
+//@   ensures authenticated [C04]: err == nil ==> in.unsealedBy == state.session
+
+// The request state starts at step 1 with a challenge filled by crypto/rand for this connection only.
+//@ func Peering.createPeeringRequest
+//@   callsite rand.Read fresh-challenge [C04]: len(arg0) == 32 && fresh(base(arg0)) && base(arg0) == base(challenge)
+//@   ensures starts-at-step-1 [C04]: result2 == nil ==> result0 != nil && fresh(result0) && result0.step == 1 && result0.client == client && result0.peering == p && len(result0.challenge) == 32 && result0.session == nil
+//@   ensures request-frame [C13]: result2 == nil ==> nonnil(result1) && result1.data != nil && result1.builder != nil && result1.dblReturnCheck == 0
+
+// The setup loop returns a state only after the ack was accepted: three accepted messages, in order, none skipped.
+//@ func LinkBase.handleSetupMessages
+//@   ensures complete-handshake [C04]: result1 == nil ==> result0 != nil && result0.step == 4 && result0.session != nil
+//@   ensures no-state-on-error [C04]: result1 != nil ==> result0 == nil
+//@   invariant 1 steps: 1 <= i && i <= 4 && state != nil && state.step == i && (i >= 2 ==> state.session != nil) && builder != nil && inv(state) && inv(builder)
+
+//@ func peeringRequestState.finalize
+//@   requires state.session != nil
+//@   ensures session-derived [C04]: result1 == nil ==> result0 != nil
+
+// A link is registered only by the two setup paths, after the complete handshake, for the address of the session
+// that authenticated all three messages, and with the link-layer keys derived from this handshake's key exchange.
+// A registered link always has a non-zero switch label.
+//@ func LinkBase.assignSwitchLabel
+//@   requires link != nil
+//@   ensures label-assigned [C04,C16]: result == nil ==> link.switchLabel != 0
+//@ func LinkBase.setupWorker
+//@   requires link != nil
+//@   callsite Peering.AddLink only-after-complete-handshake [C04]: peeringState != nil && peeringState.step == 4 && peeringState.session != nil && link.peer == peeringState.session.address.IP && link.encSession != nil
+//@ func LinkBase.handleSetup
+//@   requires link != nil
+//@   callsite Peering.AddLink only-after-complete-handshake [C04]: peeringState != nil && peeringState.step == 4 && peeringState.session != nil && link.peer == peeringState.session.address.IP && link.encSession != nil
+//@ func Peering.AddLink
+//@   callers LinkBase.setupWorker, LinkBase.handleSetup
